@@ -28,16 +28,19 @@ theorem set_noNew (fs : Fs) (p : CPath) (e : Entry) (hp : p ≠ []) (h : fs.get 
 /-- the walk only looks at `get` -/
 theorem walk_congr (fs fs' : Fs) (h : ∀ q, fs.get q = fs'.get q) : ∀ (fuel : Nat) (cur : CPath) (comps : List Name) (fo : Bool),
     walk fs fuel cur comps fo = walk fs' fuel cur comps fo := by
+  have aux : ∀ k k' : CPath → List Name → Bool → Res, (∀ a b c, k a b c = k' a b c) →
+      ∀ cur comps fo, walkAux fs k cur comps fo = walkAux fs' k' cur comps fo := by
+    intro k k' hk cur comps
+    induction comps generalizing cur with
+    | nil => intro fo; simp [walkAux]
+    | cons c rest ih =>
+      intro fo
+      rw [walkAux_cons, walkAux_cons, ← h (cur ++ [c])]
+      simp only [ih, hk]
   intro fuel
   induction fuel with
-  | zero => intro cur comps fo; cases comps <;> simp [walk]
-  | succ fuel ih =>
-    intro cur comps fo
-    cases comps with
-    | nil => simp [walk]
-    | cons c rest =>
-      rw [walk_cons, walk_cons, ← h (cur ++ [c])]
-      simp only [ih]
+  | zero => exact aux _ _ (fun _ _ _ => rfl)
+  | succ fuel ih => exact aux _ _ ih
 
 theorem resolve_congr (fs fs' : Fs) (h : ∀ q, fs.get q = fs'.get q) (path : Bytes) (fo : Bool) :
     resolve fs path fo = resolve fs' path fo := by
@@ -45,26 +48,22 @@ theorem resolve_congr (fs fs' : Fs) (h : ∀ q, fs.get q = fs'.get q) (path : By
   rw [walk_congr fs fs' h]
 
 /-- a non-directory is found at a non-root canonical path, and it is the entry stored there -/
-theorem walk_found_nondir (fs : Fs) : ∀ (fuel : Nat) (cur : CPath) (comps : List Name) (fo : Bool) (p : CPath) (e : Entry),
+theorem walk_found_nondir (fs : Fs) (fuel : Nat) : ∀ (cur : CPath) (comps : List Name) (fo : Bool) (p : CPath) (e : Entry),
     walk fs fuel cur comps fo = .found p e → e ≠ .dir → p ≠ [] ∧ fs.get p = some e := by
-  intro fuel
-  induction fuel with
-  | zero =>
-    intro cur comps fo p e h he
-    cases comps with
-    | nil => simp [walk] at h; exact absurd h.2.symm he
-    | cons c rest => simp [walk] at h
-  | succ fuel ih =>
-    intro cur comps fo p e h he
-    cases comps with
-    | nil => simp [walk] at h; exact absurd h.2.symm he
-    | cons c rest =>
-      rw [walk_cons] at h
+  apply walk_lift fs (fun k => ∀ (cur : CPath) (comps : List Name) (fo : Bool) (p : CPath) (e : Entry),
+    k cur comps fo = .found p e → e ≠ .dir → p ≠ [] ∧ fs.get p = some e)
+  · intro _ _ _ _ _ h; simp at h
+  · intro k hk cur comps
+    induction comps generalizing cur with
+    | nil => intro fo p e h he; simp [walkAux] at h; exact absurd h.2.symm he
+    | cons c rest ih =>
+      intro fo p e h he
+      rw [walkAux_cons] at h
       by_cases h1 : c = [46]
-      · rw [if_pos h1] at h; exact ih _ _ _ _ _ h he
+      · rw [if_pos h1] at h; exact ih _ _ _ _ h he
       · rw [if_neg h1] at h
         by_cases h2 : c = dotdot
-        · rw [if_pos h2] at h; exact ih _ _ _ _ _ h he
+        · rw [if_pos h2] at h; exact ih _ _ _ _ h he
         · rw [if_neg h2] at h
           cases hg : fs.get (cur ++ [c]) with
           | none =>
@@ -73,7 +72,7 @@ theorem walk_found_nondir (fs : Fs) : ∀ (fuel : Nat) (cur : CPath) (comps : Li
           | some e0 =>
             simp only [hg] at h
             cases e0 with
-            | dir => (try dsimp only at h); exact ih _ _ _ _ _ h he
+            | dir => (try dsimp only at h); exact ih _ _ _ _ h he
             | file d =>
               (try dsimp only at h)
               by_cases hr : rest = []
@@ -83,7 +82,7 @@ theorem walk_found_nondir (fs : Fs) : ∀ (fuel : Nat) (cur : CPath) (comps : Li
               (try dsimp only at h)
               by_cases hr : rest = [] ∧ fo = false
               · simp [hr] at h; rw [← h.1, ← h.2]; exact ⟨by simp, hg⟩
-              · rw [if_neg hr] at h; exact ih _ _ _ _ _ h he
+              · rw [if_neg hr] at h; exact hk _ _ _ _ _ h he
 
 theorem walk_found_ne_nil (fs : Fs) (fuel : Nat) (cur : CPath) (comps : List Name) (fo : Bool) (p : CPath) (e : Entry)
     (h : walk fs fuel cur comps fo = .found p e) (he : e ≠ .dir) : p ≠ [] :=
@@ -319,37 +318,38 @@ theorem fileRename_failed_noNew (fs : Fs) (frm to : Bytes) (fie : Bool)
                 exact created_then_unlinked fs to pa n [] hres
 
 
-theorem walk_follow_missing_cases (fs : Fs) : ∀ (fuel : Nat) (cur : CPath) (comps : List Name) (parent : CPath) (name : Name),
+theorem walk_follow_missing_cases (fs : Fs) (fuel : Nat) : ∀ (cur : CPath) (comps : List Name) (parent : CPath) (name : Name),
     walk fs fuel cur comps true = .missing parent name →
     walk fs fuel cur comps false = .missing parent name ∨ ∃ q t, walk fs fuel cur comps false = .found q (.link t) := by
-  intro fuel
-  induction fuel with
-  | zero => intro cur comps parent name h; cases comps <;> simp [walk] at h
-  | succ fuel ih =>
-    intro cur comps parent name h
-    cases comps with
-    | nil => simp [walk] at h
-    | cons c rest =>
-      rw [walk_cons] at h ⊢
+  apply walk_lift fs (fun k => ∀ (cur : CPath) (comps : List Name) (parent : CPath) (name : Name),
+    k cur comps true = .missing parent name →
+    k cur comps false = .missing parent name ∨ ∃ q t, k cur comps false = .found q (.link t))
+  · intro _ _ _ _ h; simp at h
+  · intro k hk cur comps
+    induction comps generalizing cur with
+    | nil => intro parent name h; simp [walkAux] at h
+    | cons c rest ih =>
+      intro parent name h
+      rw [walkAux_cons] at h ⊢
       by_cases h1 : c = [46]
-      · rw [if_pos h1] at h ⊢; exact ih _ _ _ _ h
+      · rw [if_pos h1] at h ⊢; exact ih _ _ _ h
       · rw [if_neg h1] at h ⊢
         by_cases h2 : c = dotdot
-        · rw [if_pos h2] at h ⊢; exact ih _ _ _ _ h
+        · rw [if_pos h2] at h ⊢; exact ih _ _ _ h
         · rw [if_neg h2] at h ⊢
           cases hg : fs.get (cur ++ [c]) with
           | none => simp only [hg] at h ⊢; exact Or.inl h
           | some e0 =>
             simp only [hg] at h
             cases e0 with
-            | dir => (try dsimp only at h); (try dsimp only); exact ih _ _ _ _ h
+            | dir => (try dsimp only at h); (try dsimp only); exact ih _ _ _ h
             | file d => (try dsimp only at h); (try dsimp only); exact Or.inl h
             | link t =>
               (try dsimp only at h); (try dsimp only)
               by_cases hr : rest = []
               · right; exact ⟨cur ++ [c], t, by simp [hr]⟩
               · simp only [hr, false_and, if_false] at h ⊢
-                exact ih _ _ _ _ h
+                exact hk _ _ _ _ h
 
 theorem sysOpen_rdonly (fs fs0 : Fs) (src : Bytes) (fd : Fd) (h : sysOpen fs src { acc := .rdonly } = (fs0, .ok fd)) :
     fs0 = fs ∧ fd.pos = 0 ∧ fd.acc = .rdonly ∧ (fd.isDir = false → ∃ d, fs.get fd.path = some (.file d) ∧ fd.path ≠ []) := by
